@@ -1101,7 +1101,79 @@ def exit_reconnect_case(ctx, case):
     ctx.label('exit_reconnect')
 
 
-COMPONENTS = {'exit_reconnect': exit_reconnect_case,
+def thread_start_failure_case(ctx, case):
+    """'After a connection ends for any reason ... the same object can
+    connect again': the reason here is that the operating system refused to
+    start the networking thread of connect() / status() (RuntimeError from
+    Thread.start under a thread or memory limit).  The caller sees that
+    error; disconnect() then works and the next connect() is served.
+    case {version, first: 'connect'|'status', fail: [n..], then}"""
+    version = case['version']
+    ctx.ev()
+    reply = '{"version":{"protocol":%d,"name":"x"},"description":"d"}' \
+        % version
+
+    def mk():
+        return servers.Server({
+            'version': version, 'login': [('success',)],
+            'status': {'reply': reply},
+            'play': {'bursts': [[('keep_alive', {'keep_alive_id': 4})]],
+                     'mode': 'reactive', 'end': 'disconnect'}})
+    srvs = []
+
+    def factory(addr):
+        srvs.append(mk())
+        return srvs[-1]
+    world = vnet.World(default=factory)
+    world.fail_thread_start = set(case['fail'])
+    errs = []
+    with vnet.installed(world):
+        conn, o = servers.make_connection(world, allowed_versions={version})
+        try:
+            for k in range(len(case['fail'])):
+                try:
+                    if case['first'] == 'connect':
+                        conn.connect()
+                    else:
+                        conn.status(handle_status=False)
+                    errs.append(None)
+                except RuntimeError as e:
+                    errs.append(str(e))
+                conn.disconnect()
+            if errs != ["can't start new thread"] * len(case['fail']):
+                from vlib.core import HarnessError
+                raise HarnessError('C16 thread start: fault not injected %r'
+                                   % (errs,))
+            if case.get('then', 'connect') == 'connect':
+                conn.connect()
+            else:
+                conn.status(handle_status=False)
+            state = world.settle(timeout=20.0)
+        except Exception as e:
+            if type(e).__name__ == 'HarnessError':
+                world.kill_all()
+                raise
+            ctx.fail('thread_start', 'S5-cannot-connect-again', case, exc=e)
+            world.kill_all()
+            return
+    last = srvs[-1] if srvs else None
+    served = last is not None and not last.errors and (
+        last.replies == [('keep_alive', 4)]
+        if case.get('then', 'connect') == 'connect'
+        else last.status_requests == 1)
+    if state != 'done' or not served or o.exceptions:
+        ctx.fail('thread_start', 'S5-cannot-connect-again', case,
+                 (state, last.replies if last else None,
+                  [repr(e[0]) for e in o.exceptions][:2]),
+                 'the session after the failed start is served')
+        world.kill_all()
+        return
+    ctx.nt('thread_start', repr(case))
+    ctx.label('thread_start_failure')
+
+
+COMPONENTS = {'thread_start': thread_start_failure_case,
+              'exit_reconnect': exit_reconnect_case,
               'dead_peer': dead_peer_disconnect_case,
               'status_poller': status_poller_case,
               'history': history_case, 'stalled': stalled_case,
@@ -1279,6 +1351,18 @@ def t_exit_reconnect(ctx):
                         '1, 2, 4 kicked sessions x 2 refused calls')
 
 
+def t_thread_start(ctx):
+    for v in (757, 47):
+        for first in ('connect', 'status'):
+            for fail in ([1], [1, 2]):
+                for then in ('connect', 'status'):
+                    thread_start_failure_case(ctx, {
+                        'version': v, 'first': first, 'fail': fail,
+                        'then': then})
+    ctx.exhaustive_done('refused thread start in connect()/status(), once '
+                        'or twice, then a served connect()/status()')
+
+
 def t_status_poller(ctx):
     k = 0
     for v in (757, 340, 47):
@@ -1299,6 +1383,7 @@ def tasks(tier):
           ('status_poller', t_status_poller, {}),
           ('dead_peer', t_dead_peer, {}),
           ('exit_reconnect', t_exit_reconnect, {}),
+          ('thread_start', t_thread_start, {}),
           ('many_reconnects', t_many_reconnects,
            dict(n=1100 if q else 3000))]
     for i in range(len(SMALL)):
